@@ -291,18 +291,20 @@ theorem safe_renderPT {s : St} (hg : Good s) (lrv : Nat) (a : Assoc) (tmpl : Lis
 
 def entsPT (rs : List Rendered) : List Ent := rs.map fun e => (e.d.rname, rkey e)
 
-theorem exec_updateXR_cases (s : St) (rv : Nat) (refs : List Ref) :
-    ((exec s (.updateXR rv refs)).2 = .conflict ∧ (exec s (.updateXR rv refs)).1 = s) ∨
-    ((exec s (.updateXR rv refs)).2 ≠ .conflict ∧ (exec s (.updateXR rv refs)).2 ≠ .err ∧
-      (exec s (.updateXR rv refs)).1.refs = refs ∧ (exec s (.updateXR rv refs)).1.objs = s.objs ∧
-      (exec s (.updateXR rv refs)).1.foreign0 = s.foreign0) := by
+theorem exec_updateXR_cases (s : St) (rv : Nat) (ver : String) (refs : List Ref) :
+    ((exec s (.updateXR rv ver refs)).2 = .conflict ∧ (exec s (.updateXR rv ver refs)).1 = s) ∨
+    ((exec s (.updateXR rv ver refs)).2 ≠ .conflict ∧ (exec s (.updateXR rv ver refs)).2 ≠ .err ∧
+      (exec s (.updateXR rv ver refs)).1.refs = refs ∧ (exec s (.updateXR rv ver refs)).1.objs = s.objs ∧
+      (exec s (.updateXR rv ver refs)).1.foreign0 = s.foreign0) := by
   simp only [exec]
   by_cases h1 : rv ≠ s.xrRv
   · left; simp [h1]
   · right
-    by_cases h2 : refs = s.refs
-    · simp [h1, h2]
-    · simp [h1, h2]
+    by_cases h2 : refs = s.refs ∧ (refs = [] ∨ ver = s.refsVer)
+    · rw [if_neg h1, if_pos h2]
+      exact ⟨by simp, by simp, h2.1.symm, rfl, rfl⟩
+    · rw [if_neg h1, if_neg h2]
+      exact ⟨by simp, by simp, rfl, rfl, rfl⟩
 
 /-- when the P&T composer persists its references, every live composed resource
 controlled by the XR is among them -/
@@ -388,21 +390,27 @@ theorem rendered_name_ne {s0 s : St} (hg0 : Good s0) {tmpl : List Desired} {a : 
 
 theorem mid_create {s : St} {ents : List Ent} (h : Mid s ents) (e : Ent) (he : e ∈ ents) (hne : e.2.name ≠ "") (c : Nat)
     (hf : findObj s.objs e.2.kind e.2.name = none) :
-    (exec s (.create e.2.kind e.2.name e.1 c)).2 = .ok ∧ Mid (exec s (.create e.2.kind e.2.name e.1 c)).1 ents := by
+    ((exec s (.create e.2.kind e.2.name e.1 c)).2 = .ok ∨ (exec s (.create e.2.kind e.2.name e.1 c)).2 = .invalid) ∧
+    Mid (exec s (.create e.2.kind e.2.name e.1 c)).1 ents := by
+  by_cases hinv : c = invalidContent
+  · simp only [exec, hinv, if_true]; exact ⟨Or.inr trivial, h⟩
   have hw := mid_write h e he hne (fun o => { o with annot := e.1 }) (fun _ => rfl) (fun _ => rfl)
     ⟨e.2.kind, e.2.name, e.1, .xr, false, false, c, false⟩ rfl rfl
     (by intro o ho; rw [hf] at ho; cases ho)
-  simp only [exec, hf]
-  exact ⟨trivial, by simpa [hf] using hw⟩
+  simp only [exec, hinv, if_false, hf]
+  exact ⟨Or.inl trivial, by simpa [hf] using hw⟩
 
 theorem mid_mergePatch {s : St} {ents : List Ent} (h : Mid s ents) (e : Ent) (he : e ∈ ents) (hne : e.2.name ≠ "") (c : Nat)
     {o : CObj} (hf : findObj s.objs e.2.kind e.2.name = some o) (hc : o.ctrl ≠ .other) :
-    (exec s (.mergePatch e.2.kind e.2.name e.1 c)).2 = .ok ∧ Mid (exec s (.mergePatch e.2.kind e.2.name e.1 c)).1 ents := by
+    ((exec s (.mergePatch e.2.kind e.2.name e.1 c)).2 = .ok ∨ (exec s (.mergePatch e.2.kind e.2.name e.1 c)).2 = .invalid) ∧
+    Mid (exec s (.mergePatch e.2.kind e.2.name e.1 c)).1 ents := by
+  by_cases hinv : c = invalidContent
+  · simp only [exec, hinv, if_true, hf]; exact ⟨Or.inr trivial, h⟩
   have hw := mid_write h e he hne (fun o => { o with annot := e.1, ctrl := .xr, content := c }) (fun _ => rfl) (fun _ => rfl)
     ⟨e.2.kind, e.2.name, e.1, .xr, false, false, c, false⟩ rfl rfl
     (by intro o' ho'; rw [hf] at ho'; cases ho'; exact hc)
-  simp only [exec, hf, hc, if_false]
-  exact ⟨trivial, by simpa [hf] using hw⟩
+  simp only [exec, hinv, if_false, hf, hc]
+  exact ⟨Or.inl trivial, by simpa [hf] using hw⟩
 
 theorem safe_applyPT (lrv : Nat) (ents : List Ent) (k : Bool → P) :
     ∀ (l : List Rendered) (s : St) (b : Bool), Mid s ents →
@@ -430,8 +438,9 @@ theorem safe_applyPT (lrv : Nat) (ents : List Ent) (k : Bool → P) :
         obtain ⟨hresp, hm1⟩ := mid_create hm (e.d.rname, rkey e) hee hen e.d.content hf
         apply safe_wcall hg _ _ _ hm1.good
         intro _ _
-        rw [hresp]
-        exact ih _ b hm1 hl' hk
+        rcases hresp with hresp | hresp <;> rw [hresp]
+        · exact ih _ b hm1 hl' hk
+        · exact ih _ false hm1 hl' hk
       | some o =>
         simp only [Safe, sem, exec_getObj_some hf, isRead, if_true]
         refine ⟨hg, ?_, safe_onError hg _, safe_onError hg _⟩
@@ -441,8 +450,9 @@ theorem safe_applyPT (lrv : Nat) (ents : List Ent) (k : Bool → P) :
           obtain ⟨hresp, hm1⟩ := mid_mergePatch hm (e.d.rname, rkey e) hee hen e.d.content hf hc
           apply safe_wcall hg _ _ _ hm1.good
           intro _ _
-          rw [hresp]
-          exact ih _ b hm1 hl' hk
+          rcases hresp with hresp | hresp <;> rw [hresp]
+          · exact ih _ b hm1 hl' hk
+          · exact ih _ false hm1 hl' hk
 
 structure TmplOK (tmpl : List Desired) (fresh : List String) : Prop where
   nodup : (tmpl.map (·.rname)).Nodup
@@ -450,8 +460,8 @@ structure TmplOK (tmpl : List Desired) (fresh : List String) : Prop where
 
 theorem exec_patchXR (s : St) : exec s .patchXR = (s, .ok) := by simp [exec]
 
-theorem safe_composePT {s : St} (hg : Good s) (lrv : Nat) (tmpl : List Desired) (fresh : List String)
-    (ht : TmplOK tmpl fresh) : Safe sem Good (composePT lrv s.refs tmpl fresh) s := by
+theorem safe_composePT {s : St} (hg : Good s) (lrv : Nat) (tmpl : List Desired) (fresh : List String) (ver : String)
+    (ht : TmplOK tmpl fresh) : Safe sem Good (composePT lrv s.refs tmpl fresh ver) s := by
   unfold composePT
   apply safe_associatePT hg lrv tmpl _ s.refs [] [] s (fun r h => h) (by intro r h; cases h)
   · refine ⟨Shrunk.rfl' hg, ?_, ?_⟩
@@ -463,7 +473,7 @@ theorem safe_composePT {s : St} (hg : Good s) (lrv : Nat) (tmpl : List Desired) 
     apply safe_renderPT hg1 lrv a tmpl _ _ tmpl fresh [] ht.fresh (by intro e h; cases h)
       (fun d h => Or.inl h) (by simpa using ht.nodup)
     intro rs hrs
-    rcases exec_updateXR_cases s1 lrv (rs.map rkey) with ⟨hc, hst⟩ | ⟨hnc, hne, hr, ho, hf0⟩
+    rcases exec_updateXR_cases s1 lrv ver (rs.map rkey) with ⟨hc, hst⟩ | ⟨hnc, hne, hr, ho, hf0⟩
     · -- rejected (stale resourceVersion): nothing written
       apply safe_wcall hg1 _ _ _ (by rw [hst]; exact hg1)
       intro _ h2; exact absurd hc h2
@@ -484,12 +494,12 @@ theorem safe_composePT {s : St} (hg : Good s) (lrv : Nat) (tmpl : List Desired) 
       · rw [exec_patchXR]; exact hg5
       · intro _ _; rw [exec_patchXR]; exact safe_finish hg5 _ _
 
-theorem safe_reconcile_pt {s : St} (hg : Good s) (tmpl : List Desired) (fresh : List String)
-    (ht : TmplOK tmpl fresh) : Safe sem Good (reconcile (.pt tmpl fresh)) s := by
+theorem safe_reconcile_pt {s : St} (hg : Good s) (tmpl : List Desired) (fresh : List String) (ver : String)
+    (ht : TmplOK tmpl fresh) : Safe sem Good (reconcile (.pt tmpl fresh ver)) s := by
   apply safe_reconcile_of_body hg
   intro s' lrv hg' hr
   simp only []
   rw [← hr]
-  exact safe_composePT hg' lrv tmpl fresh ht
+  exact safe_composePT hg' lrv tmpl fresh ver ht
 
 end Xp.C01
